@@ -5319,6 +5319,10 @@ class CiscoRange(UserList):
             else:
                 new_list.append(val)
 
+            if new_list[-1] in self.data:
+                # only reachable with ignore_errors=True: the value is a member already, nothing to add
+                return self
+
             if sort is True:
                 retval = self.attribute_sort(new_list, attribute="sort_list", reverse=False)
             else:
